@@ -811,6 +811,17 @@ public:
     using iora::common::LifecycleState;
     using iora::common::LifecycleResult;
 
+    // Serialize concurrent stop() calls: the caller that loses the _running
+    // exchange below must not return ("Already stopped") while the winner is
+    // still joining the timer thread — handlers would still be running after
+    // that stop() had returned. A handler calling stop() on the timer thread
+    // itself must not wait for a stop() that is joining this very thread.
+    std::unique_lock<std::mutex> stopLock(_stopMutex, std::defer_lock);
+    if (std::this_thread::get_id() != _loopThreadId.load(std::memory_order_acquire))
+    {
+      stopLock.lock();
+    }
+
     auto currentState = _lifecycleState.load(std::memory_order_acquire);
 
     // Can't stop from Stopped or Reset state
@@ -820,10 +831,13 @@ public:
                              "Cannot stop from Stopped or Reset state");
     }
 
+    // From here on the service is going down for good: a drain() that times out —
+    // the one below, or one another thread is waiting in — must not re-open it.
+    _stopInProgress.store(true, std::memory_order_release);
+
     // If in Running state, drain first
     if (currentState == LifecycleState::Running)
     {
-      _stopInProgress.store(true, std::memory_order_release);
       auto drainResult = drain(5000); // 5 second drain timeout
       if (!drainResult.success)
       {
@@ -1419,6 +1433,7 @@ private:
 
   void runLoop()
   {
+    _loopThreadId.store(std::this_thread::get_id(), std::memory_order_release);
     loggerSnapshot()->info("Timer service loop started");
 
     std::vector<epoll_event> events(_config.maxEpollEvents);
@@ -1593,6 +1608,8 @@ private:
   std::atomic<iora::common::LifecycleState> _lifecycleState{iora::common::LifecycleState::Created};
   std::atomic<bool> _accepting{false};
   std::atomic<bool> _stopInProgress{false};          // stop() has begun: a timed-out drain must not re-open the service
+  std::mutex _stopMutex;                              // serializes stop(): a second caller waits for the join
+  std::atomic<std::thread::id> _loopThreadId{};       // id of the timer thread (set by runLoop)
   std::atomic<std::uint32_t> _executingCallbacks{0}; // Callbacks in safeRun(), not in _records
   std::condition_variable _drainCV;                   // notified when drain may complete
 };
